@@ -67,7 +67,7 @@ class ParamGen:
 
     def _candidates(self, shape, positive):
         r = len(shape)
-        c = ["sum", "hadamard", "kronecker", "outer_product", "index", "reduce_sum", "reduce_prod"]
+        c = ["sum", "hadamard", "kronecker", "outer_product", "index", "reduce_sum", "reduce_prod", "reduce_sum_of_outer"]
         if not self.complex:
             c += ["exp", "softplus", "sigmoid", "scaled_sigmoid", "clamp", "softmax"]
             if r == 1:
@@ -126,6 +126,19 @@ class ParamGen:
             a = pos_ax if rng.random() < 0.5 else pos_ax - (r + 1)
             cls = {"reduce_sum": P.ReduceSumParameter, "reduce_prod": P.ReduceProductParameter, "reduce_lse": P.ReduceLSEParameter}[op]
             return P.Parameter.from_unary(cls(s_in, axis=a), sub(s_in))
+        if op == "reduce_sum_of_outer":  # the composition the optimiser rewrites into an einsum (+ flatten)
+            if r >= 3:
+                return None
+            pos_ax = rng.randrange(r + 1)
+            m = rng.choice([1, 2, 3, 4, 6])
+            s_mid = shape[:pos_ax] + (m,) + shape[pos_ax:]
+            oax = pos_ax if rng.random() < 0.5 else rng.randrange(r + 1)
+            a, b = rng.choice(_divisor_pairs(s_mid[oax]))
+            s1 = s_mid[:oax] + (a,) + s_mid[oax + 1 :]
+            s2 = s_mid[:oax] + (b,) + s_mid[oax + 1 :]
+            neg1, neg2 = rng.random() < 0.5, rng.random() < 0.5
+            outer = P.Parameter.from_binary(P.OuterProductParameter(s1, s2, axis=oax - (r + 1) if neg1 else oax), sub(s1), sub(s2))
+            return P.Parameter.from_sequence(outer, P.ReduceSumParameter(s_mid, axis=pos_ax - (r + 1) if neg2 else pos_ax))
         if op == "exp":
             return P.Parameter.from_unary(P.ExpParameter(shape), sub(shape, False))
         if op == "log":
@@ -195,5 +208,5 @@ ALL_NODE_KINDS = [
 OP_NAMES = [
     "sum", "hadamard", "kronecker", "outer_product", "outer_sum", "index", "reduce_sum", "reduce_prod", "reduce_lse",
     "exp", "log", "square", "softplus", "sigmoid", "scaled_sigmoid", "clamp", "conjugate", "softmax", "logsoftmax",
-    "mixing", "gp_mean", "gp_stddev", "gp_logpartition", "poly_product", "poly_diff", "log_of_softmax",
+    "mixing", "gp_mean", "gp_stddev", "gp_logpartition", "poly_product", "poly_diff", "log_of_softmax", "reduce_sum_of_outer",
 ]
